@@ -421,6 +421,25 @@ def opResetLc : P String := do
     (row.zip vals).map (fun (t, v) => (t.1, t.2.1, v)))
   pure (fCoo (Graph.unionTranspose rows.flatten))
 
+/-- `laplacian <n> COO` → COO of `I - D^-1/2 A D^-1/2` -/
+def opLaplacian : P String := do
+  let n ← pNat
+  let A ← pCoo
+  pure (fCoo (Spectral.laplacian floatT A n))
+
+/-- `select <dim> <m> vals…` → `argsort(vals)[1:dim+1]` -/
+def opSelect : P String := do
+  let dim ← pNat
+  let m ← pNat
+  let vals ← pMany m pFloat
+  pure (join ((Spectral.selectOrder vals dim).map toString))
+
+/-- `ranks <n> labels…` → rank of each row within its label -/
+def opRanks : P String := do
+  let n ← pNat
+  let labels ← pMany n pNat
+  pure (join ((List.range n).map (fun r => toString (Spectral.rankInLabel labels r))))
+
 def dispatch (op : String) : P String :=
   match op with
   | "knn" => opKnn
@@ -433,6 +452,9 @@ def dispatch (op : String) : P String :=
   | "smetric" => opSMetric
   | "grad" => opGrad
   | "heap" => opHeap
+  | "laplacian" => opLaplacian
+  | "select" => opSelect
+  | "ranks" => opRanks
   | "fastint" => opFastInt
   | "catint" => opCatInt
   | "ssetunion" => opSsetUnion
